@@ -33,7 +33,7 @@ import tomli_w  # noqa: E402
 from nauyaca.security import tofu as tofumod  # noqa: E402
 
 # two names that differ only where SQL's LIKE has a wildcard
-HOSTS = {"h1": ("app_1.ex", 1965), "h2": ("app-1.ex", 1965)}
+HOSTS = {"h1": ("app_1.ex", 1965), "h2": ("app-1.ex", 1965), "h3": ("app_1.ex", 1966)}       # h3: h1's name on another port
 FPS = {"f1": "sha256:" + "1" * 64, "f2": "sha256:" + "2" * 64}
 FP_INV = {v: k for k, v in FPS.items()}
 FOLLOWUP_HOST = ("unrelated.ex", 1965)
@@ -103,7 +103,7 @@ def read_store(path):
         rows = con.execute("SELECT hostname, port, fingerprint FROM known_hosts").fetchall()
     finally:
         con.close()
-    out = {"h1": "none", "h2": "none"}
+    out = {"h1": "none", "h2": "none", "h3": "none"}
     extra = []
     for host, port, fp in rows:
         key = [k for k, v in HOSTS.items() if v == (host, port)]
@@ -302,7 +302,7 @@ def main(pid="C12"):
         if not thorough:
             # every single-statement operation on every store, and a sample of the imports
             single = [s_ for s_ in inits if s_["op"]["kind"] != "import"]
-            inits = single + [s_ for s_ in inits if s_["op"]["kind"] == "import"][:max(0, 900 - len(single))]
+            inits = single + [s_ for s_ in inits if s_["op"]["kind"] == "import"][:600]
             rnd.shuffle(inits)
         cases = []
         nb_total = 0
@@ -341,7 +341,7 @@ def main(pid="C12"):
             chunk = cases[lo:lo + 20000]
             fd, tpath = tempfile.mkstemp(prefix="vf-c12-", suffix=".json")
             with os.fdopen(fd, "w") as f:
-                json.dump([{k: (v if k != "final" else {"h1": v.get("h1"), "h2": v.get("h2")}) for k, v in c.items() if not k.startswith("_")}
+                json.dump([{k: (v if k != "final" else {"h1": v.get("h1"), "h2": v.get("h2"), "h3": v.get("h3")}) for k, v in c.items() if not k.startswith("_")}
                            for c in chunk], f)
             try:
                 tr, reached = tlc.validate_traces("TofuStoreObs", "TofuStoreObs.cfg", tpath, timeout=1200, dfs=False)
